@@ -304,7 +304,26 @@ def spec_access(form, st, n):
 # ---------------------------------------------------------------------------
 # the probe
 # ---------------------------------------------------------------------------
-def make_probe(log, depth, kid_factory, variant="plain"):
+# the receiver's own indexing protocol: answers; no __getitem__ at all; __getitem__ for ints only (TypeError for a
+# string key, e.g. a position-indexed record); __getitem__ that raises its own KeyError / IndexError / AttributeError
+PROTOS = ["value", "none", "int_only", "keyerror", "indexerror", "attrerror"]
+PROTO_ERR = {"keyerror": KeyError, "indexerror": IndexError, "attrerror": AttributeError}
+PROTO_TERM = {"value": "ISubscript", "keyerror": "ISubscript", "indexerror": "ISubscript", "attrerror": "ISubscript",
+              "none": "INoStr", "int_only": "INoStr"}
+
+
+def proto_getitem(proto, record, answer):
+    def __getitem__(self, k):
+        if proto == "int_only" and not isinstance(k, int):
+            raise TypeError("record indices must be integers, not %s" % type(k).__name__)
+        record(self, k)
+        if proto in PROTO_ERR:
+            raise PROTO_ERR[proto](k)
+        return answer(self)
+    return __getitem__
+
+
+def make_probe(log, depth, kid_factory, variant="plain", proto="value"):
     """An object that records every attribute / item / call access into log as
     (depth, kind, name) and answers every member with the next probe."""
     state = {"kid": None}
@@ -323,9 +342,8 @@ def make_probe(log, depth, kid_factory, variant="plain"):
                 raise AttributeError(n)      # yaql's marker on its own lambda wrappers: a host object has none
             return kid()
 
-        def __getitem__(self, k):
-            log.append((depth, "I", k))
-            return kid()
+        if proto != "none":
+            __getitem__ = proto_getitem(proto, lambda self, k: log.append((depth, "I", k)), lambda self: kid())
 
         def __call__(self, *a, **k):
             log.append((depth, "C", "()"))
@@ -444,10 +462,16 @@ def members_touched(log, success):
     return out
 
 
-def run_single(sa, via, form, name, route, on_class=False, shape=None, deco=False):
+def own_index_error(touched, err, form, proto):
+    """the object's __getitem__ was asked for exactly one key and raised its own error: the indexing happened"""
+    return (form == "index" and proto in PROTO_ERR and len(touched) == 1 and touched[0][1] == "I"
+            and type(err) is PROTO_ERR[proto])
+
+
+def run_single(sa, via, form, name, route, on_class=False, shape=None, deco=False, proto="value"):
     """-> (observation, anomaly or None).  observation = ('reach', m) | ('denied', class)"""
     log = []
-    obj = make_probe(log, 0, None)
+    obj = make_probe(log, 0, None, "plain", proto)
     try:
         attach(obj, sa, via, on_class, shape, deco)
     except Exception as e:
@@ -483,6 +507,8 @@ def run_single(sa, via, form, name, route, on_class=False, shape=None, deco=Fals
         return ("reach", n), None
     touched = members_touched(root_log, False)
     cls = exn_class(err)
+    if own_index_error(touched, err, form, proto):
+        return ("reach", touched[0][2]), None
     if touched:
         return ("denied", cls), "raised %s after touching %r" % (type(err).__name__, touched)
     if cls.startswith("Other:"):
@@ -491,6 +517,29 @@ def run_single(sa, via, form, name, route, on_class=False, shape=None, deco=Fals
 
 
 HEADER = "From YV Require Import Model.Yaqlized."
+
+
+HEADER_I = "From YV Require Import Model.Lexer Model.Yaqlized Model.YaqlizedPaths."
+
+
+def icase_term(c, obs):
+    rt, pt = tables([c["name"]], [c["sargs"]], c.get("dyn"))
+    return ("{| ic_regex := %s; ic_pred := %s; ic_via_yaqlize := %s; ic_args := %s; ic_proto := %s; ic_name := %s; ic_obs := %s |}"
+            % (table_term(rt), table_term(pt), gal.boolean(c["via"]), gal.opt(c["sargs"], yargs_term),
+               PROTO_TERM[c.get("proto", "value")], gal.s(c["name"]), outcome_term(obs)))
+
+
+def check_cases(run, pairs, shard=250):
+    """pairs: [(case, observation)] -> indices on which the model disagrees; the index form is compared through
+    [icase] (the model consults the receiver's indexing protocol), the other forms through [case]"""
+    plain = [(j, case_term(c, o)) for j, (c, o) in enumerate(pairs) if c["form"] != "index"]
+    index = [(j, icase_term(c, o)) for j, (c, o) in enumerate(pairs) if c["form"] == "index"]
+    bad = []
+    if plain:
+        bad += [plain[k][0] for k in run.coq_mismatches(HEADER, "case", "case_ok", [t for _, t in plain], shard=shard)]
+    if index:
+        bad += [index[k][0] for k in run.coq_mismatches(HEADER_I, "icase", "icase_ok", [t for _, t in index], shard=shard)]
+    return sorted(bad)
 
 
 def case_term(c, obs):
@@ -594,7 +643,7 @@ def nontrivial(c):
 # C
 # ---------------------------------------------------------------------------
 def describe(c):
-    d = {k: c[k] for k in ("sargs", "via", "form", "name", "route", "shape", "deco", "dyn") if k in c}
+    d = {k: c[k] for k in ("sargs", "via", "form", "name", "route", "shape", "deco", "dyn", "proto") if k in c}
     if c.get("shape") is not None:
         d["delivered_as"] = shape_names(c["shape"])
     return d
@@ -605,6 +654,12 @@ def explain(c, obs, anomaly):
     CUR_DYN.update(c.get("dyn") or {})
     st = spec_settings(c["sargs"], c["via"])
     want = spec_access(c["form"], st, c["name"])
+    if want[0] == "reach" and c["form"] == "index" and PROTO_TERM[c.get("proto", "value")] == "INoStr":
+        want = ("denied", "EType")        # the object's own TypeError: it is not subscriptable by a string
+    if c["form"] == "index" and anomaly and ("reached the member through A" in anomaly or "'A'," in anomaly):
+        return "violation", ("the index form reads an ATTRIBUTE of the object (receiver indexing protocol: %s; attribute switch "
+                             "%s): `$obj[key]` may only use the object's own indexer" % (
+                                 c.get("proto", "value"), (c["sargs"] or {}).get("attrs")))
     if obs is not None and obs[0] == "reach" and want[0] == "denied":
         what = "a member is reached although the settings deny it (%s form)" % c["form"]
     elif obs is not None and obs[0] == "denied" and want[0] == "reach":
@@ -623,8 +678,11 @@ def report(run, c, obs, anomaly):
     if anomaly and "rejected the arguments" in anomaly:
         kind, what = "mismatch", anomaly
     st = spec_settings(c["sargs"], c["via"])
+    req = spec_access(c["form"], st, c["name"])
+    if req[0] == "reach" and c["form"] == "index" and PROTO_TERM[c.get("proto", "value")] == "INoStr":
+        req = ("denied", "EType")
     run.fail(kind, what, {"case": describe(c), "observed": obs, "anomaly": anomaly,
-                          "required": spec_access(c["form"], st, c["name"]),
+                          "required": req,
                           "entries": "entry ['s',text]|['r',i]|['p',i]|['j',i] index into REGEXES/PREDS/JUNK of harness/props/c07.py",
                           "theorems": ["C07_policy_sound", "C07_policy_complete", "C07_underscore_never"]})
 
@@ -654,7 +712,12 @@ def correspondence(run):
         if "shape" not in c:
             c["shape"] = None if i % 4 == 0 else (i * 7 + i // 4) % (len(LIST_SHAPES) * 3 * len(REMAP_SHAPES))
             c["deco"] = (i % 5 == 2)
-        obs, anomaly = run_single(c["sargs"], c["via"], c["form"], c["name"], c["route"], on_class, c["shape"], c.get("deco", False))
+        if "proto" not in c:
+            c["proto"] = PROTOS[(i // 2) % len(PROTOS)] if i % 3 else "value"
+        obs, anomaly = run_single(c["sargs"], c["via"], c["form"], c["name"], c["route"], on_class, c["shape"], c.get("deco", False),
+                                  c["proto"])
+        if c["form"] == "index":
+            run.count("index-protocol:" + c["proto"])
         run.count("delivered:" + (shape_names(c["shape"]).split("/")[0] if c["sargs"] else "n/a"))
         run.case((c["sargs"], c["via"], c["form"], c["name"], c["route"]), nontrivial=nontrivial(c))
         run.count("form:" + c["form"])
@@ -674,9 +737,8 @@ def correspondence(run):
         if anomaly or obs is None or obs[1].startswith("Other:"):
             report(run, c, obs, anomaly)
             continue
-        terms.append(case_term(c, obs))
         meta.append((c, obs))
-    bad = run.coq_mismatches(HEADER, "case", "case_ok", terms, shard=250)
+    bad = check_cases(run, meta)
     seen = set()
     for i in bad:
         c, obs = meta[i]
@@ -704,7 +766,7 @@ def correspondence(run):
 HISTORY_MODES = ["reeval", "select", "where", "select_elvis"]
 
 
-def history_probe_class(log):
+def history_probe_class(log, proto="value"):
     class HProbe(object):
         def __init__(self, rid):
             object.__setattr__(self, "_rid", rid)
@@ -718,9 +780,9 @@ def history_probe_class(log):
                 raise AttributeError(n)
             return Leaf(log, rid)
 
-        def __getitem__(self, k):
-            log.append((object.__getattribute__(self, "_rid"), "I", k))
-            return Leaf(log, object.__getattribute__(self, "_rid"))
+        if proto != "none":
+            __getitem__ = proto_getitem(proto, lambda self, k: log.append((object.__getattribute__(self, "_rid"), "I", k)),
+                                        lambda self: Leaf(log, object.__getattribute__(self, "_rid")))
 
         def __call__(self, *a, **k):
             log.append((object.__getattribute__(self, "_rid"), "C", "()"))
@@ -767,8 +829,10 @@ def effective_sargs(h, r):
     return r["sargs"] if r["sargs"] is not None else h["class_sargs"][r["cls"]]
 
 
-def step_obs(entries, err, form):
+def step_obs(entries, err, form, proto="value"):
     touched = members_touched(entries, False)
+    if err is not None and own_index_error(touched, err, form, proto):
+        return ("reach", touched[0][2]), None
     if err is None:
         if len(touched) != 1:
             return None, "step succeeded with member accesses %r" % (touched,)
@@ -786,7 +850,8 @@ def step_obs(entries, err, form):
 def run_history(h):
     """-> [(observation | None, anomaly | None)] per receiver; None/None = not evaluated (the pipeline stopped earlier)"""
     log = []
-    classes = [history_probe_class(log), history_probe_class(log)]
+    protos = h.get("protos") or ["value", "value"]
+    classes = [history_probe_class(log, protos[0]), history_probe_class(log, protos[1])]
     for k, sa in enumerate(h["class_sargs"]):
         if sa is not None:
             setattr(classes[k], yaqlization.YAQLIZATION_ATTR, yaqlization.build_yaqlization_settings(**kwargs_of(sa)))
@@ -818,7 +883,7 @@ def run_history(h):
                 err = None
             except Exception as e:
                 err = e
-            out.append(step_obs([x for x in log if x[0] == i], err, h["form"]))
+            out.append(step_obs([x for x in log if x[0] == i], err, h["form"], protos[h["receivers"][i]["cls"]]))
         return out
     set_dyn(states[0] if states else None)
     ctx = base_context().create_child_context()
@@ -836,10 +901,11 @@ def run_history(h):
         reached = members_touched(ent, False)
         if failed:
             out.append((None, "receiver touched after the pipeline failed: %r" % (reached,)) if reached else (None, None))
-        elif reached:
+        elif reached and not (err is not None and own_index_error(reached, err, h["form"], protos[h["receivers"][i]["cls"]])
+                              and not any(x[0] > i for x in log)):
             out.append(step_obs(ent, None, h["form"]))
         elif err is not None:
-            out.append(step_obs(ent, err, h["form"]))
+            out.append(step_obs(ent, err, h["form"], protos[h["receivers"][i]["cls"]]))
             failed = True
         else:
             out.append((None, "receiver skipped by the pipeline"))
@@ -860,7 +926,8 @@ def history_from_case(c, rng, k):
     if k % 5 == 0:
         recv = [{"cls": 0, "sargs": None}] + recv if mode == "reeval" else recv + [{"cls": 0, "sargs": None}]
     return {"form": c["form"], "name": c["name"], "route": "text" if k % 2 else "tree", "mode": mode,
-            "class_sargs": [None, S() if k % 4 == 0 else None], "receivers": recv}
+            "class_sargs": [None, S() if k % 4 == 0 else None], "receivers": recv,
+            "protos": [PROTOS[k % len(PROTOS)], PROTOS[(k // 6) % len(PROTOS)]] if k % 2 else ["value", "value"]}
 
 
 def random_history(rng):
@@ -883,7 +950,8 @@ def random_history(rng):
         return sa
     h = {"form": rng.choice(FORMS), "name": name, "route": rng.choice(["text", "tree"]), "mode": rng.choice(HISTORY_MODES),
          "class_sargs": [st() if rng.random() < 0.3 else None, st() if rng.random() < 0.5 else None],
-         "receivers": [{"cls": rng.randrange(2), "sargs": st()} for _ in range(rng.randrange(2, 6))]}
+         "receivers": [{"cls": rng.randrange(2), "sargs": st()} for _ in range(rng.randrange(2, 6))],
+         "protos": [rng.choice(PROTOS), rng.choice(PROTOS)]}
     if rng.random() < 0.5:
         # stateful predicates: a grant table / hidden set the host edits between evaluations; the receivers share the
         # predicate OBJECTS (process-wide), steps may use another engine and / or a fresh context
@@ -906,8 +974,9 @@ def history_terms(h, outs):
             continue
         states = h.get("dyn_states") or []
         dyn = (states[i] if i < len(states) else None) if h["mode"] == "reeval" else (states[0] if states else None)
-        c = {"sargs": effective_sargs(h, h["receivers"][i]), "via": False, "form": h["form"], "name": h["name"], "dyn": dyn or {}}
-        terms.append(case_term(c, obs))
+        c = {"sargs": effective_sargs(h, h["receivers"][i]), "via": False, "form": h["form"], "name": h["name"], "dyn": dyn or {},
+             "proto": (h.get("protos") or ["value", "value"])[h["receivers"][i]["cls"]]}
+        terms.append((c, obs))
         meta.append((h, i, c, obs))
     return terms, meta
 
@@ -930,12 +999,16 @@ def history_correspondence(run, corpus, policy_cases):
             run.sample({"history": h, "observed": [o for o, _ in outs]})
         for i, (obs, anomaly) in enumerate(outs):
             if anomaly:
-                run.fail("mismatch", "a step of a history on one parsed call site behaves outside the model: " + anomaly,
+                attr_read = h["form"] == "index" and ("through A" in anomaly or "'A'," in anomaly)
+                run.fail("violation" if attr_read else "mismatch",
+                         ("the index form reads an ATTRIBUTE of the object (`$obj[key]` may only use the object's own indexer) - "
+                          "step of a history: " + anomaly) if attr_read else
+                         "a step of a history on one parsed call site behaves outside the model: " + anomaly,
                          {"history": h, "step": i, "observed": [o for o, _ in outs]})
         t, m = history_terms(h, outs)
         terms += t
         meta += m
-    bad = run.coq_mismatches(HEADER, "case", "case_ok", terms, shard=300)
+    bad = check_cases(run, terms, shard=300)
     seen = set()
     for j in bad:
         h, i, c, obs = meta[j]
@@ -1335,10 +1408,10 @@ def replay(run, data):
     if "case" in d:
         c = d["case"]
         obs, anomaly = run_single(c["sargs"], c["via"], c["form"], c["name"], c.get("route", "tree"), False,
-                                  c.get("shape"), c.get("deco", False))
+                                  c.get("shape"), c.get("deco", False), c.get("proto", "value"))
         if anomaly or obs is None:
             return False
-        return not run.coq_mismatches(HEADER, "case", "case_ok", [case_term(c, obs)])
+        return not check_cases(run, [(c, obs)])
     if "chain" in d:
         c = d["chain"]
         obs, anomaly, _ = run_chain(c["root"], c["kids"], c["path"])
@@ -1352,7 +1425,7 @@ def replay(run, data):
         if any(a for _, a in outs):
             return False
         terms, _ = history_terms(d["history"], outs)
-        return not run.coq_mismatches(HEADER, "case", "case_ok", terms)
+        return not check_cases(run, terms)
     if "keyword" in d:
         from yaql.language import utils as yutils
         n = d["keyword"]
